@@ -86,9 +86,16 @@ def generate(per_file, jobs):
     os.makedirs(OUT, exist_ok=True)
     rnd = random.Random(20260926)
     todo = []
+    idx_path = os.path.join(OUT, "index.json")
+    old_index = json.load(open(idx_path)) if os.path.exists(idx_path) else {}
+    done = {(v["file"], v["line"], v["operator"]) for v in old_index.values()}
+    rest = "--rest" in sys.argv
     for f in FILES:
         text = open(os.path.join("/repo", f)).read()
         c = candidates(f, text)
+        if rest:
+            # second sample: every candidate site the first sample did not take
+            c = [x for x in c if (f, x[0] + 1, x[1]) not in done]
         rnd.shuffle(c)
         # spread over kinds
         seen, pick = {}, []
@@ -111,7 +118,7 @@ def generate(per_file, jobs):
         procs.append(subprocess.Popen([sys.executable, __file__, "_worker", str(w), spec]))
     for p in procs:
         p.wait()
-    index = {}
+    index = dict(old_index) if rest else {}
     for w in range(jobs):
         p = os.path.join("/tmp", "automut-%d.out.json" % w)
         if os.path.exists(p):
@@ -134,7 +141,7 @@ def worker(w, spec):
     try:
         sh(["cargo", "test", "--workspace", "--no-run", "--offline"], cwd=wt, timeout=1800)
         for n, (f, i, kind, what, new) in enumerate(todo):
-            mid = "%s-L%d-%s-%d" % (re.sub(r"[^a-z0-9]+", "_", f.replace("bitar/src/", "b_").replace("src/", "s_").replace(".rs", "")), i + 1, kind, n)
+            mid = ("%s-L%d-%s-r%d" if os.environ.get("AUTOMUT_REST") else "%s-L%d-%s-%d") % (re.sub(r"[^a-z0-9]+", "_", f.replace("bitar/src/", "b_").replace("src/", "s_").replace(".rs", "")), i + 1, kind, n)
             path = os.path.join(wt, f)
             orig = open(path).read()
             lines = orig.split("\n")
